@@ -7,7 +7,10 @@
      success: status word 1 /\ debit = value + fee /\ exactly one ETX with that value at index idx
      failure: status word 0 /\ no debit /\ no ETX            (exactly one status word either way). *)
 From Coq Require Import List NArith Bool.
-From GQ Require Import Generated.C05Params Lib.C05_Slice Model.C05 Proofs.C05 Proofs.C05_Block.
+From GQ Require Import Generated.C05Params Lib.C05_Slice Model.C05 Proofs.C05 Proofs.C05_Block Proofs.C05_Claim.
+(* not used by the theorems: required here so that the number library of the harness-written case files is part of the
+   cone the check builds (on a freshly cleaned tree nothing else would compile it) *)
+From GQ Require Lib.C05_Num.
 Import ListNotations.
 Local Open Scope N_scope.
 
@@ -523,4 +526,96 @@ Example block_of_calls_nonvacuous :
   let t := mkMtx wit_origin wit_self 1000000 0 in
   let rs := fst (process_calls 5 c [t; t] (mkW [(wit_origin, e21); (wit_self, e21)] [])) in
   map (map e_index) rs = [[0]; [0]] /\ map (map e_sender) rs = [[wit_self]; [wit_self]].
+Proof. vm_compute. repeat split; reflexivity. Qed.
+
+
+(* ---------------- claim of a locked coinbase (core/vm/contracts.go:ClaimCoinbaseLockup under core/vm/evm.go:Call) ----------------
+   [claim_aon owner gas led etxs miner to lb epoch gl res] (Proofs/C05_Claim.v):
+     success: the record under (owner, miner, lb, epoch) is consumed and nothing else of the ledger changes, the ETX gas limit
+              is deducted from the gas, exactly one ETX of type CoinbaseLockup carrying the record's balance from the owner to [to]
+              is recorded under the fresh index len(etxs), one undo entry (key, record) is recorded
+     failure: ledger, outbound list and undo records are unchanged.
+   FULL STATEMENT (refuted on the code as it is):
+     forall c height owner gas led etxs miner to lb epoch gl,
+       claim_aon owner gas led etxs miner to lb epoch gl (call_claim c height owner gas led etxs miner to lb epoch gl).
+   rawdb.DeleteCoinbaseLockup(evm.Batch, ...) precedes the "index > MaxUint16" check and evm.revertToSnapshot does not
+   restore evm.Batch. *)
+Theorem send_all_or_nothing_claim_call_refuted :
+  exists c height owner gas led etxs miner to lb epoch gl,
+    ~ claim_aon owner gas led etxs miner to lb epoch gl (call_claim c height owner gas led etxs miner to lb epoch gl).
+Proof. exact claim_aon_refuted. Qed.
+Print Assumptions send_all_or_nothing_claim_call_refuted.
+
+(* the violating inputs, exactly: every due claim made with more than 65535 cached ETXs, in EVERY fork regime, reports failure,
+   the record is gone, no ETX and no undo entry exist *)
+Theorem claim_index_overflow_destroys_the_lockup : forall c height owner gas led etxs miner to lb epoch gl,
+  claim_due c height owner gas led miner to lb epoch gl = true -> MaxUint16 < lenN etxs ->
+  let res := call_claim c height owner gas led etxs miner to lb epoch gl in
+  fst (fst (fst (fst res))) = false /\
+  lget (owner, miner, lb, epoch) led <> None /\ lget (owner, miner, lb, epoch) (snd (fst (fst res))) = None /\
+  snd (fst res) = etxs /\ snd res = [].
+Proof. exact claim_index_overflow_destroys_lockup. Qed.
+Print Assumptions claim_index_overflow_destroys_the_lockup.
+
+(* PARTIAL: the full statement for every input with at most 65535 cached ETXs (all fork regimes, all ledgers, all requests);
+   missing from the full statement: exactly the inputs of the previous theorem *)
+Theorem send_all_or_nothing_claim_call_partial : forall c height owner gas led etxs miner to lb epoch gl,
+  lenN etxs <= MaxUint16 ->
+  claim_aon owner gas led etxs miner to lb epoch gl (call_claim c height owner gas led etxs miner to lb epoch gl).
+Proof. exact claim_call_aon_partial. Qed.
+Print Assumptions send_all_or_nothing_claim_call_partial.
+
+(* closed form of the claim under Call for ALL inputs: due (guards in source order) and room in the cache => the success
+   tuple; due and no room => record deleted, failure; not due => failure, nothing changed *)
+Theorem claim_call_closed_form : forall c height owner gas led etxs miner to lb epoch gl,
+  let res := call_claim c height owner gas led etxs miner to lb epoch gl in
+  if claim_due c height owner gas led miner to lb epoch gl then
+    exists r, lget (owner, miner, lb, epoch) led = Some r /\
+    if MaxUint16 <? lenN etxs
+    then res = (false, gas - gl, ldel (owner, miner, lb, epoch) led, etxs, [])
+    else res = (true, gas - gl, ldel (owner, miner, lb, epoch) led,
+                etxs ++ [mkEtx to owner (l_bal r) (lenN etxs) EtxCoinbaseLockupType gl], [((owner, miner, lb, epoch), r)])
+  else fst (fst (fst (fst res))) = false /\ snd (fst (fst res)) = led /\ snd (fst res) = etxs /\ snd res = [].
+Proof. exact call_claim_spec. Qed.
+Print Assumptions claim_call_closed_form.
+
+Theorem claim_records_iff_reports_success : forall c height owner gas led etxs miner to lb epoch gl,
+  let res := call_claim c height owner gas led etxs miner to lb epoch gl in
+  (fst (fst (fst (fst res))) = true -> exists e, snd (fst res) = etxs ++ [e]) /\
+  (fst (fst (fst (fst res))) = false -> snd (fst res) = etxs).
+Proof. exact claim_records_iff_success. Qed.
+Print Assumptions claim_records_iff_reports_success.
+
+Theorem claim_changes_no_other_record : forall c height owner gas led etxs miner to lb epoch gl k',
+  k' <> (owner, miner, lb, epoch) ->
+  lget k' (snd (fst (fst (call_claim c height owner gas led etxs miner to lb epoch gl)))) = lget k' led.
+Proof. exact claim_touches_only_its_key. Qed.
+Print Assumptions claim_changes_no_other_record.
+
+(* a locked balance leaves the chain at most once: after a paying claim, the same key pays nothing on the ledger it left,
+   whatever the later context, gas, destination or cache *)
+Theorem locked_coinbase_is_claimed_at_most_once : forall c c2 height height2 owner gas gas2 led etxs etxs2 miner to to2 lb epoch gl gl2,
+  let res := call_claim c height owner gas led etxs miner to lb epoch gl in
+  fst (fst (fst (fst res))) = true ->
+  let res2 := call_claim c2 height2 owner gas2 (snd (fst (fst res))) etxs2 miner to2 lb epoch gl2 in
+  fst (fst (fst (fst res2))) = false /\ snd (fst res2) = etxs2 /\ snd (fst (fst res2)) = snd (fst (fst res)).
+Proof. exact claim_twice_pays_once. Qed.
+Print Assumptions locked_coinbase_is_claimed_at_most_once.
+
+(* side condition on generated data: RunLockupContract's dispatch order; in ClaimCoinbaseLockup the address checks, the read of
+   the record, the deletion, THEN the index check, the append and the undo entry; epoch length and ETX type constants *)
+Theorem lockup_source_as_modelled : lockup_as_modelled = true.
+Proof. exact lockup_ok. Qed.
+Print Assumptions lockup_source_as_modelled.
+
+Example claim_nonvacuous :
+  let c := wit_ctx (SelfDestructRefundForkBlock + 5) 0 [] in
+  claim_due c 200000 wit_self 100000 wit_ledger wit_miner wit_claim_to 1 2 30000 = true /\
+  call_claim c 200000 wit_self 100000 wit_ledger (prefilled 2) wit_miner wit_claim_to 1 2 30000 =
+  (true, 70000, [], prefilled 2 ++ [mkEtx wit_claim_to wit_self 7000 2 EtxCoinbaseLockupType 30000], [((wit_self, wit_miner, 1, 2), mkLRec 7000 100000 3)]) /\
+  (* one block before the tranche unlocks: nothing happens *)
+  call_claim c 99999 wit_self 100000 wit_ledger [] wit_miner wit_claim_to 1 2 30000 = (false, 70000, wit_ledger, [], []) /\
+  (* the overflow case of the refutation *)
+  (let res := call_claim c 200000 wit_self 100000 wit_ledger (prefilled 65536) wit_miner wit_claim_to 1 2 30000 in
+   fst (fst (fst (fst res))) = false /\ snd (fst (fst res)) = [] /\ lenN (snd (fst res)) = 65536 /\ snd res = []).
 Proof. vm_compute. repeat split; reflexivity. Qed.
